@@ -381,6 +381,12 @@ class Model:
             # yytext carries (or is about to carry) a yymore() prefix while
             # the end of a source is being processed
             self.notes.add('more-active-at-source-end')
+        if self.more_next and not self.expect_input and not self.sc.array:
+            # yylex() has reached the end of the source with a yymore() pending.  With %pointer
+            # the kept text lives in the buffer, which is restarted now: the text is dropped
+            # (with %array it lives in yytext and is kept)
+            self.more_next = False
+            self.stat('more-prefix-dropped-at-source-end')
         b = self.cur()
         held = b.held if b else self.orphan
         eof = b.eof if b else self.orphan_eof
@@ -621,6 +627,7 @@ class Model:
 
     def on_input(self, ev):
         v = ev['input']
+        self.expect_input = False
         b = self.cur()
         self.inputs_in_action += 1
         if self.check_overread:
